@@ -183,6 +183,21 @@ ZOO: dict[str, dict] = {
             "strong": {},
         },
     },
+    # node types that allow a PROPER, non-empty subset of the marks (by names and by a group): what is allowed has to
+    # be filtered mark by mark
+    "restricted_marks": {
+        "nodes": {
+            **copy.deepcopy(_LIST),
+            "title": {"content": "inline*", "group": "block", "marks": "strong link"},
+            "caption": {"content": "text*", "group": "block", "marks": "fmt"},
+        },
+        "marks": {
+            "em": {"group": "fmt"},
+            "link": {"attrs": {"href": {}, "title": {"default": None}}, "inclusive": False},
+            "strong": {"group": "fmt"},
+            "code": {},
+        },
+    },
     "remark_user": {
         "nodes": copy.deepcopy(_LIST),
         "marks": {
@@ -207,7 +222,7 @@ GROUP_V = [
     "table_iso",
 ]
 GROUP_X = ["fixed", "structure", "inline_box"]
-MARK_VARIANTS = ["comment", "big_small", "remark_user", "asym_chain", "non_inclusive"]
+MARK_VARIANTS = ["comment", "big_small", "remark_user", "asym_chain", "non_inclusive", "restricted_marks"]
 ISOLATING = ["iso", "table", "table_strict", "table_iso"]
 INLINE_BOX = ["inline_box"]
 
